@@ -111,6 +111,12 @@ func zooGo(e *E, variant int) interface{} {
 		}
 		return e.S
 	case "time":
+		if e.M != "" {
+			// M = offset from UTC in minutes, e.g. "+330", "-480"
+			var mins int
+			fmt.Sscanf(e.M, "%d", &mins)
+			return time.Unix(e.I, 0).In(time.FixedZone("Z"+e.M, mins*60))
+		}
 		return time.Unix(e.I, 0).UTC()
 	case "ptr":
 		v := zooGo(e.A[0], variant)
@@ -346,7 +352,7 @@ func PrintE2(e *E) string {
 	case "ptr":
 		return "&" + PrintE2(e.A[0])
 	case "time":
-		return fmt.Sprintf("time(%d)", e.I)
+		return fmt.Sprintf("time(%d)", e.I) + tag
 	case "list":
 		s := "["
 		for i, a := range e.A {
